@@ -27,3 +27,14 @@ SUITE=skipped
 if [ -z "${NOSUITE:-}" ]; then (cd $WT && go test -count=1 $TESTPKGS > $L.suite 2>&1); SUITE=$?; fi
 (cd /verif && VERIF_REPO=$WT timeout 1800 ./vcheck $PROP "$@" > $L.check 2>&1); CHK=$?
 echo "$ID demo-clean=$CLEAN(want 0) build=$BUILD demo-mut=$MUT(want !=0) suite=$SUITE(want 0) check-exit=$CHK :: $(grep -m1 '^VIOLATION' $L.check | cut -c1-160) :: $(tail -1 $L.check | cut -c1-150)"
+# record the result of the registered check as it is now
+python3 - "$SEED/meta.json" "$CHK" "$(grep -m1 '^VIOLATION' $L.check | sed 's/.*replays\///; s/_[0-9a-f]*\.json//' | cut -c1-150)" <<'PY'
+import json, sys
+p, chk, viol = sys.argv[1:4]
+try:
+    m = json.load(open(p))
+except Exception:
+    m = {}
+m["check_result_now"] = ("DETECTED exit 1: " + viol) if chk == "1" else ("MISSED exit " + chk)
+json.dump(m, open(p, "w"), indent=1)
+PY
